@@ -130,7 +130,7 @@ fn main() {
             let h = std::thread::Builder::new().stack_size(512 << 20).spawn(move || vh::c02::judge(&src2, &b2, &mods2, None)).unwrap();
             match h.join() {
                 Ok(vh::c02::Verdict::Agree) => { ag += 1; if show { println!("AGREE\n{}\n", src); } }
-                Ok(vh::c02::Verdict::Rejected) => { rej += 1; if show || args.get(4).map(|s| s == "rej").unwrap_or(false) { println!("REJECTED {:?}\n{}\n", vh::procsys::compile_entry(&src, &b).err(), src); } }
+                Ok(vh::c02::Verdict::Rejected(_)) => { rej += 1; if show || args.get(4).map(|s| s == "rej").unwrap_or(false) { println!("REJECTED {:?}\n{}\n", vh::procsys::compile_entry(&src, &b).err(), src); } }
                 Ok(vh::c02::Verdict::Inconclusive(w)) => { inc += 1; *whys.entry(w).or_insert(0) += 1; }
                 Ok(vh::c02::Verdict::Disagree(c, r, ev)) => { dis += 1; println!("events {:?}", ev); println!("DISAGREE\n{}\n  compiled  => {}\n  reference => {}\n", src, c, r); }
                 Err(_) => { println!("PANIC\n{}\n", src); }
@@ -143,7 +143,7 @@ fn main() {
         vh::pool::quiet_panics();
         let src = if std::path::Path::new(&args[2]).exists() { std::fs::read_to_string(&args[2]).unwrap() } else { args[2].clone() };
         let b = vh::qv::builtins(); let mods = vh::refsem::std_sources("/repo");
-        let h = std::thread::Builder::new().stack_size(512 << 20).spawn(move || match vh::c02::judge(&src, &b, &mods, None) { vh::c02::Verdict::Agree => println!("AGREE"), vh::c02::Verdict::Rejected => println!("REJECTED"), vh::c02::Verdict::Inconclusive(w) => println!("INCONCLUSIVE {}", w), vh::c02::Verdict::Disagree(c, r, e) => println!("DISAGREE {:?}\n  compiled  {}\n  reference {}", e, c, r) }).unwrap();
+        let h = std::thread::Builder::new().stack_size(512 << 20).spawn(move || match vh::c02::judge(&src, &b, &mods, None) { vh::c02::Verdict::Agree => println!("AGREE"), vh::c02::Verdict::Rejected(k) => println!("REJECTED {}", k), vh::c02::Verdict::Inconclusive(w) => println!("INCONCLUSIVE {}", w), vh::c02::Verdict::Disagree(c, r, e) => println!("DISAGREE {:?}\n  compiled  {}\n  reference {}", e, c, r) }).unwrap();
         h.join().ok();
         return;
     }
